@@ -1,6 +1,6 @@
 (* C03/Props.v — property theorems only. *)
 From Coq Require Import List String ZArith.
-From Exo Require Import Base.Store Base.IntDec Ledger.Ledger Ledger.Strings Ledger.IndexInv Ledger.AggInv Ledger.NonNeg C03.Model C03.Proofs C03.Proofs_credit C03.Proofs_accept C03.Proofs_first.
+From Exo Require Import Base.Store Base.IntDec Ledger.Ledger Ledger.Strings Ledger.IndexInv Ledger.AggInv Ledger.NonNeg Ledger.SidxInv C03.Model C03.Proofs C03.Proofs_credit C03.Proofs_accept C03.Proofs_first.
 Import ListNotations.
 Local Open Scope string_scope.
 Local Open Scope Z_scope.
@@ -18,12 +18,21 @@ Theorem C03_scan_without_delimiter_refuted :
 Proof. exact scan_without_delimiter_matches_early. Qed.
 Print Assumptions C03_scan_without_delimiter_refuted.
 
-(* Along EVERY history of well-formed operations with fresh record keys, from any state satisfying the index
+(* Along EVERY history of well-formed operations (incl. native-token delegation and UpdateNSTBalance) with fresh record keys,
+   from any state satisfying the index
    invariant (e.g. the empty ledger), every pending-index entry points to a live record with that completion height
    and nonce, and every record is stored under its own key. *)
 Theorem C03_index_invariant : forall ops s0, idx_inv s0 -> hist_ok s0 ops = true -> idx_inv (run ops s0).
 Proof. exact run_idx. Qed.
 Print Assumptions C03_index_invariant.
+
+(* The staker index: along every such history every staker-index entry (staker/asset/hex(nonce)) points to a live record whose
+   own staker, asset and nonce are that key - also across native-restaking balance adjustments, whose record walk goes
+   through this index. (The converse, "every record has its entry", is exactly what the staker-index collision finding
+   breaks; it is not claimed.) The empty ledger satisfies the hypothesis ([empty_sidx]). *)
+Theorem C03_staker_index_invariant : forall ops s0, idx_inv s0 -> sidx_inv s0 -> hist_ok s0 ops = true -> sidx_inv (run ops s0).
+Proof. exact run_sidx. Qed.
+Print Assumptions C03_staker_index_invariant.
 
 (* Never early: after every such history, the EndBlock of the current height leaves every record whose completion
    height lies in the future exactly as it is (same key, same amounts). *)
